@@ -1,6 +1,10 @@
 import Bptk.Core.C12
 import Mathlib.Tactic.Linarith
 import Mathlib.Tactic.Ring
+import Mathlib.Tactic.FieldSimp
+import Mathlib.Tactic.NormNum
+import Mathlib.Algebra.Order.Field.Basic
+import Mathlib.Algebra.Order.Field.Rat
 /-!
 C12 — property theorems.  Quantifier: every program (arbitrary functions giving the population actions
 of the four callbacks), every integer start/stop, every `n = 1/dt ≥ 1`, every initial population, both
@@ -510,6 +514,413 @@ theorem final_progress (c : Cfg) (sp : Spec) (h : Safe c sp) (hs : sp.start ≤ 
     rw [this]
     simp; omega
 
+/-! ### wave 2 (1): termination of a step under an explicit creation bound
+
+Python never leaves `for agent in model.agents` when created agents keep creating agents.  Under the bound
+"every agent creates at most `c` agents in its handlers/acts of this step, and agents with id ≥ `N` create
+nobody" (nested creation among ids < `N` is allowed) the loop ends after at most `L + c·N` iterations
+(`L` = agents live at loop entry): the termination assumption `stuck = false` is discharged. -/
+
+structure CreateBound (P : Prog) (r : Int) (s : Nat) (N c : Nat) : Prop where
+  each : ∀ a, creates (P.handle r s a ++ P.act r s a) ≤ c
+  none_above : ∀ a, N ≤ a → creates (P.handle r s a ++ P.act r s a) = 0
+
+theorem creates_cons (a : Act) (rest : List Act) :
+    creates (a :: rest) = (if a = Act.create then 1 else 0) + creates rest := by
+  by_cases h : a = Act.create
+  · subst h; simp [creates]; omega
+  · simp [creates, h]
+
+theorem loopAct_todo_len (l : LoopSt) (a : Act) :
+    (loopAct l a).todo.length ≤ l.todo.length + (if a = Act.create then 1 else 0) := by
+  cases a with
+  | delete ids => simp [loopAct]
+  | create => by_cases h : l.aliased = true <;> simp [loopAct, h]
+
+theorem foldl_loopAct_todo_len (acts : List Act) : ∀ l : LoopSt,
+    (acts.foldl loopAct l).todo.length ≤ l.todo.length + creates acts := by
+  induction acts with
+  | nil => intro l; simp [creates]
+  | cons a rest ih =>
+    intro l
+    have h1 := loopAct_todo_len l a
+    have h2 := ih (loopAct l a)
+    rw [creates_cons]
+    simp only [List.foldl_cons]
+    omega
+
+/-- the measure `|todo| + c·(N − m)` (all ids still to come are ≥ m) strictly decreases per iteration. -/
+theorem agentLoop_terminates (P : Prog) (r : Int) (s : Nat) (N c : Nat) (hb : CreateBound P r s N c) :
+    ∀ (fuel : Nat) (l : LoopSt) (acc : List Nat) (m : Nat), LoopInv l acc → (∀ x ∈ l.todo, m ≤ x) →
+      l.todo.length + c * (N - m) ≤ fuel → (agentLoop P r s fuel l acc).2.2 = false := by
+  intro fuel
+  induction fuel with
+  | zero =>
+    intro l acc m _ _ hf
+    have : l.todo = [] := List.length_eq_zero_iff.mp (by omega)
+    simp [agentLoop, this]
+  | succ f ih =>
+    intro l acc m hinv hm hf
+    unfold agentLoop
+    split
+    · rfl
+    · rename_i a rest htodo
+      have hinv0 : LoopInv ({ l with todo := rest } : LoopSt) (acc ++ [a]) := by
+        refine ⟨?_, ?_, hinv.popOK⟩
+        · simpa [htodo] using hinv.sorted
+        · intro x hx; apply hinv.bound; simpa [htodo] using hx
+      have hinv' := loopInv_foldl (P.handle r s a ++ P.act r s a) _ _ hinv0
+      obtain ⟨new, hn, hnb, _⟩ := foldl_loopAct_todo (P.handle r s a ++ P.act r s a) ({ l with todo := rest } : LoopSt)
+      have ha_next : a < l.pop.next := hinv.bound a (by simp [htodo])
+      have hsorted : (a :: rest).Pairwise (· < ·) := by
+        have := (List.pairwise_append.mp hinv.sorted).2.1
+        simpa [htodo] using this
+      have ha_rest : ∀ x ∈ rest, a < x := fun x hx => List.rel_of_pairwise_cons hsorted hx
+      have hma : m ≤ a := hm a (by simp [htodo])
+      apply ih _ _ (a + 1) hinv'
+      · intro x hx
+        rw [hn] at hx
+        rcases List.mem_append.mp hx with hx | hx
+        · have := ha_rest x hx; omega
+        · have := (hnb x hx).1; simp only at this; omega
+      · have hlen := foldl_loopAct_todo_len (P.handle r s a ++ P.act r s a) ({ l with todo := rest } : LoopSt)
+        simp only [htodo, List.length_cons] at hf
+        simp only at hlen
+        by_cases haN : a < N
+        · have hc := hb.each a
+          have h1 : c * (N - (a + 1)) + c ≤ c * (N - m) := by
+            have h2 : N - (a + 1) + 1 ≤ N - m := by omega
+            calc c * (N - (a + 1)) + c = c * (N - (a + 1) + 1) := by ring
+              _ ≤ c * (N - m) := Nat.mul_le_mul_left c h2
+          generalize c * (N - (a + 1)) = X at *
+          generalize c * (N - m) = Y at *
+          omega
+        · have hc := hb.none_above a (by omega)
+          have h0 : N - (a + 1) = 0 := by omega
+          rw [h0, Nat.mul_zero]
+          omega
+
+/-- more fuel than needed changes nothing: the result of a terminating loop does not depend on the
+model's fuel parameter. -/
+theorem agentLoop_fuel_irrelevant (P : Prog) (r : Int) (s : Nat) : ∀ (f : Nat) (l : LoopSt) (acc : List Nat),
+    (agentLoop P r s f l acc).2.2 = false → ∀ k, agentLoop P r s (f + k) l acc = agentLoop P r s f l acc := by
+  intro f
+  induction f with
+  | zero =>
+    intro l acc h k
+    have ht : l.todo = [] := by simpa [agentLoop] using h
+    cases k with
+    | zero => rfl
+    | succ k => simp [agentLoop, ht]
+  | succ f ih =>
+    intro l acc h k
+    have hk : f + 1 + k = (f + k) + 1 := by omega
+    rw [hk]
+    unfold agentLoop at h ⊢
+    split
+    · rfl
+    · rename_i a rest htodo
+      simp only [htodo] at h
+      exact ih _ _ h k
+
+theorem stepOut_terminates (P : Prog) (sp : Spec) (pop : Pop) (r : Int) (s : Nat) (N c : Nat) (h : PopOK pop)
+    (hb : CreateBound P r s N c) (hf : (stepOut P sp pop r s).entry.agents.length + c * N ≤ sp.fuel) :
+    (stepOut P sp pop r s).stuck = false := by
+  have h1 : PopOK ((P.beginRound r s).foldl Pop.apply pop) := popOK_foldl _ _ h
+  have hinv : LoopInv (⟨((P.beginRound r s).foldl Pop.apply pop).agents, true,
+      (P.beginRound r s).foldl Pop.apply pop⟩ : LoopSt) [] :=
+    ⟨by simpa using h1.sorted, by simpa using h1.bound, h1⟩
+  exact agentLoop_terminates P r s N c hb sp.fuel _ [] 0 hinv (fun _ _ => Nat.zero_le _) (by simpa [stepOut] using hf)
+
+/-- the fuel of the spec covers `L + c·N` at every position of a sequence of steps. -/
+def FuelOK (P : Prog) (sp : Spec) (N c : Nat) : Pop → List (Int × Nat) → Prop
+  | _, [] => True
+  | pop, p :: ps => (stepOut P sp pop p.1 p.2).entry.agents.length + c * N ≤ sp.fuel ∧
+      FuelOK P sp N c (stepOut P sp pop p.1 p.2).pop ps
+
+theorem runPositions_not_stuck (c : Cfg) (P : Prog) (sp : Spec) (h : Safe c sp) (N cb : Nat)
+    (hb : ∀ r s, CreateBound P r s N cb) : ∀ (ps : List (Int × Nat)) (st : St), st.crashed = false →
+      st.stuck = false → PopOK st.pop → FuelOK P sp N cb st.pop ps → (runPositions c P sp st ps).stuck = false := by
+  intro ps
+  induction ps with
+  | nil => intro st _ hs _ _; simpa [runPositions] using hs
+  | cons p rest ih =>
+    intro st hc hs hp hf
+    obtain ⟨h1, _, h3, h4, _⟩ := runStep_safe c P sp h st hc p.1 p.2
+    have hst := stepOut_terminates P sp st.pop p.1 p.2 N cb hp (hb p.1 p.2) hf.1
+    simp only [runPositions, List.foldl_cons]
+    apply ih _ h1
+    · rw [h4, hs, hst]; rfl
+    · rw [h3]; exact (stepShape P sp st.pop p.1 p.2 hp).popOK
+    · rw [h3]; exact hf.2
+
+/-- whole runs terminate (no step is left hanging) under the creation bound. -/
+theorem run_terminates (c : Cfg) (P : Prog) (sp : Spec) (pop0 : Pop) (h : Safe c sp) (hp : PopOK pop0) (N cb : Nat)
+    (hb : ∀ r s, CreateBound P r s N cb) (hf : FuelOK P sp N cb pop0 (grid sp)) :
+    (run c P sp pop0).stuck = false := by
+  rw [run_eq_positions]
+  exact runPositions_not_stuck c P sp h N cb hb (grid sp) (St.init pop0) rfl rfl hp hf
+
+/-- the per-step clause without the termination assumption: under the bound, the live agents all act first,
+in list order, followed only by agents created in this very step, strictly increasing in id. -/
+theorem stepShape_bounded (P : Prog) (sp : Spec) (pop : Pop) (r : Int) (s : Nat) (N c : Nat) (h : PopOK pop)
+    (hb : CreateBound P r s N c) (hf : (stepOut P sp pop r s).entry.agents.length + c * N ≤ sp.fuel) :
+    ∃ extra, (stepOut P sp pop r s).acted = (stepOut P sp pop r s).entry.agents ++ extra ∧
+      (∀ x ∈ extra, (stepOut P sp pop r s).entry.next ≤ x) ∧
+      (stepOut P sp pop r s).acted.Pairwise (· < ·) := by
+  have hs := stepOut_terminates P sp pop r s N c h hb hf
+  obtain ⟨extra, he, hx⟩ := (stepShape P sp pop r s h).live hs
+  exact ⟨extra, he, hx, (stepShape P sp pop r s h).order⟩
+
+/-! ### wave 2 (3): cancellation through `scheduler.running` -/
+
+def cancelAt (cancel : Int → Nat → Bool) (p : Int × Nat) : Bool := cancel p.1 p.2
+
+def stepC' (c : Cfg) (P : Prog) (sp : Spec) (cancel : Int → Nat → Bool) (x : St × Bool) (p : Int × Nat) : St × Bool :=
+  stepC c P sp cancel x p.1 p.2
+
+theorem foldl_stepC_false (c : Cfg) (P : Prog) (sp : Spec) (cancel : Int → Nat → Bool) :
+    ∀ (ps : List (Int × Nat)) (st : St), ps.foldl (stepC' c P sp cancel) (st, false) = (st, false) := by
+  intro ps
+  induction ps with
+  | nil => intro st; rfl
+  | cons p rest ih => intro st; simp [List.foldl_cons, stepC', stepC, ih]
+
+theorem roundC_eq (c : Cfg) (P : Prog) (sp : Spec) (cancel : Int → Nat → Bool) (x : St × Bool) (r : Int) :
+    roundC c P sp cancel x r = ((List.range sp.n).map (fun s => (r, s))).foldl (stepC' c P sp cancel) x := by
+  obtain ⟨st, b⟩ := x
+  cases b with
+  | true => simp [roundC, List.foldl_map, stepC']
+  | false => rw [foldl_stepC_false]; simp [roundC]
+
+/-- the nested loops with their two `if self.running` tests = one test before every grid position. -/
+theorem runC_eq_fold (c : Cfg) (P : Prog) (sp : Spec) (cancel : Int → Nat → Bool) (pop0 : Pop) (b : Bool) :
+    runC c P sp cancel pop0 b = (grid sp).foldl (stepC' c P sp cancel) (St.init pop0, b) := by
+  have hr : roundC c P sp cancel = fun acc r => List.foldl (stepC' c P sp cancel) acc
+      ((List.range sp.n).map (fun s => (r, s))) := by
+    funext x r; exact roundC_eq c P sp cancel x r
+  simp only [runC, grid, List.foldl_flatMap, hr]
+
+theorem foldl_stepC_cut (c : Cfg) (P : Prog) (sp : Spec) (cancel : Int → Nat → Bool) :
+    ∀ (ps : List (Int × Nat)) (st : St),
+      ps.foldl (stepC' c P sp cancel) (st, true) =
+        (runPositions c P sp st (cut (cancelAt cancel) ps), !ps.any (cancelAt cancel)) := by
+  intro ps
+  induction ps with
+  | nil => intro st; simp [runPositions, cut]
+  | cons p rest ih =>
+    intro st
+    by_cases hp : cancelAt cancel p = true
+    · have hp' : cancel p.1 p.2 = true := hp
+      simp [List.foldl_cons, stepC', stepC, cut, hp, hp', foldl_stepC_false, runPositions]
+    · have hp' : cancel p.1 p.2 = false := by simpa [cancelAt] using hp
+      have hp'' : cancelAt cancel p = false := by simpa using hp
+      simp only [List.foldl_cons, stepC', stepC, hp', if_true, Bool.not_false, cut, hp'', Bool.false_eq_true, if_false,
+        List.any_cons, Bool.false_or]
+      have := ih (runStep c P sp st p.1 p.2)
+      rw [this]
+      simp [runPositions]
+
+theorem cut_prefix (f : Int × Nat → Bool) : ∀ ps : List (Int × Nat), ∃ rest, ps = cut f ps ++ rest := by
+  intro ps
+  induction ps with
+  | nil => exact ⟨[], rfl⟩
+  | cons p rest ih =>
+    by_cases hp : f p = true
+    · exact ⟨rest, by simp [cut, hp]⟩
+    · obtain ⟨r, hr⟩ := ih
+      exact ⟨r, by simp [cut, hp, ← hr]⟩
+
+theorem cut_eq_self (f : Int × Nat → Bool) : ∀ ps : List (Int × Nat), (∀ p ∈ ps, f p = false) → cut f ps = ps := by
+  intro ps
+  induction ps with
+  | nil => intro _; rfl
+  | cons p rest ih =>
+    intro h
+    simp [cut, h p (by simp), ih (fun q hq => h q (by simp [hq]))]
+
+/-- the steps executed before a cancellation takes effect: no step after the first cancelling one, and that
+one is the last. -/
+theorem cut_last (f : Int × Nat → Bool) : ∀ ps : List (Int × Nat), (∃ p ∈ ps, f p = true) →
+    ∃ init p, cut f ps = init ++ [p] ∧ f p = true ∧ ∀ q ∈ init, f q = false := by
+  intro ps
+  induction ps with
+  | nil => rintro ⟨p, hp, _⟩; simp at hp
+  | cons q rest ih =>
+    intro h
+    by_cases hq : f q = true
+    · exact ⟨[], q, by simp [cut, hq], hq, by simp⟩
+    · have h' : ∃ p ∈ rest, f p = true := by
+        obtain ⟨p, hp, hfp⟩ := h
+        rcases List.mem_cons.mp hp with rfl | hp
+        · exact absurd hfp hq
+        · exact ⟨p, hp, hfp⟩
+      obtain ⟨init, p, h1, h2, h3⟩ := ih h'
+      refine ⟨q :: init, p, by simp [cut, hq, h1], h2, ?_⟩
+      intro x hx
+      rcases List.mem_cons.mp hx with rfl | hx
+      · simpa using hq
+      · exact h3 x hx
+
+/-- progress of a grid position that is not the last one is below 1 (repaired formula). -/
+theorem progress_lt1_before_last (c : Cfg) (hc : c.progressBySpan = true) (sp : Spec) (r : Int) (s : Nat)
+    (hg : (r, s) ∈ grid sp) (hne : (r, s) ≠ (sp.stop, sp.n - 1)) :
+    ∃ p, progressOf c sp r s = some p ∧ p.lt1 = true := by
+  obtain ⟨h1, h2, h3⟩ := (grid_mem sp r s).mp hg
+  have hn : (0 : Int) < sp.n := by omega
+  have htot : 0 < (sp.stop - sp.start + 1) * (sp.n : Int) := Int.mul_pos (by omega) hn
+  refine ⟨⟨(r - sp.start) * sp.n + s + 1, (sp.stop - sp.start + 1) * sp.n⟩, by simp [progressOf, hc, htot], ?_⟩
+  simp only [Frac.lt1, gt_iff_lt, htot, if_true, decide_eq_true_eq]
+  by_cases hr : r = sp.stop
+  · have hs : s + 1 < sp.n := by
+      by_contra hcon
+      apply hne
+      have : s = sp.n - 1 := by omega
+      rw [this, hr]
+    rw [hr]
+    have : (sp.stop - sp.start + 1) * (sp.n : Int) = (sp.stop - sp.start) * sp.n + sp.n := by ring
+    rw [this]; omega
+  · have hlt : r - sp.start + 1 ≤ sp.stop - sp.start := by omega
+    have hmul : (r - sp.start + 1) * (sp.n : Int) ≤ (sp.stop - sp.start) * sp.n :=
+      Int.mul_le_mul_of_nonneg_right hlt (by omega)
+    have e1 : (r - sp.start + 1) * (sp.n : Int) = (r - sp.start) * sp.n + sp.n := by ring
+    have e2 : (sp.stop - sp.start + 1) * (sp.n : Int) = (sp.stop - sp.start) * sp.n + sp.n := by ring
+    rw [e2]; rw [e1] at hmul
+    omega
+
+/-- what holds for a run in which callbacks may clear `scheduler.running`. -/
+structure CancelClauses (c : Cfg) (P : Prog) (sp : Spec) (pop0 : Pop) (cancel : Int → Nat → Bool) : Prop where
+  /-- the executed steps are the grid up to and including the first cancelling step, each once, in order,
+  every one a complete step block -/
+  log : (runC c P sp cancel pop0 true).1.log = blocks P sp pop0 (cut (cancelAt cancel) (grid sp))
+  begins : positionsOf isBegin (runC c P sp cancel pop0 true).1.log = cut (cancelAt cancel) (grid sp)
+  ends : positionsOf isEnd (runC c P sp cancel pop0 true).1.log = cut (cancelAt cancel) (grid sp)
+  prefix_ : ∃ rest, grid sp = cut (cancelAt cancel) (grid sp) ++ rest
+  /-- nobody cancels: the run is the uncancelled run -/
+  none : (∀ p ∈ grid sp, cancelAt cancel p = false) → (runC c P sp cancel pop0 true).1 = run c P sp pop0
+  flag : (runC c P sp cancel pop0 true).2 = !(grid sp).any (cancelAt cancel)
+  /-- the flag is never set again: a run started with `running = False` executes nothing -/
+  dead : runC c P sp cancel pop0 false = (St.init pop0, false)
+  /-- cancelled before the last step: progress stays below 1, `HybridRunner.run_scenario` skips the scenario -/
+  skipped : c.progressBySpan = true → (∃ p ∈ grid sp, cancelAt cancel p = true ∧ p ≠ (sp.stop, sp.n - 1) ∧
+      ∀ q ∈ grid sp, cancelAt cancel q = true → timeNum sp.n p ≤ timeNum sp.n q) →
+    skipped (runC c P sp cancel pop0 true).1 = true
+
+theorem cut_mem (f : Int × Nat → Bool) : ∀ (ps : List (Int × Nat)) (q : Int × Nat), q ∈ cut f ps → q ∈ ps := by
+  intro ps q hq
+  obtain ⟨rest, hr⟩ := cut_prefix f ps
+  rw [hr]; exact List.mem_append_left _ hq
+
+theorem cancelClauses (c : Cfg) (P : Prog) (sp : Spec) (pop0 : Pop) (cancel : Int → Nat → Bool) (h : Safe c sp) :
+    CancelClauses c P sp pop0 cancel := by
+  have hrun : runC c P sp cancel pop0 true =
+      (runPositions c P sp (St.init pop0) (cut (cancelAt cancel) (grid sp)), !(grid sp).any (cancelAt cancel)) := by
+    rw [runC_eq_fold, foldl_stepC_cut]
+  have hspec := runPositions_spec c P sp h (cut (cancelAt cancel) (grid sp)) (St.init pop0) rfl
+  have hlog : (runC c P sp cancel pop0 true).1.log = blocks P sp pop0 (cut (cancelAt cancel) (grid sp)) := by
+    rw [hrun]; simpa [St.init] using hspec.2.1
+  refine ⟨hlog, by rw [hlog]; exact positions_begin P sp _ _, by rw [hlog]; exact positions_end P sp _ _,
+    cut_prefix _ _, ?_, by rw [hrun], by rw [runC_eq_fold, foldl_stepC_false], ?_⟩
+  · intro hn
+    rw [hrun, cut_eq_self _ _ hn, run_eq_positions]
+  · rintro hc ⟨p, hp, hfp, hne, hmin⟩
+    obtain ⟨init, q, h1, h2, h3⟩ := cut_last (cancelAt cancel) (grid sp) ⟨p, hp, hfp⟩
+    -- the last executed step is the first cancelling one, i.e. p
+    have hq : q ∈ grid sp := cut_mem _ _ _ (by rw [h1]; simp)
+    have hqp : q = p := by
+      have hle := hmin q hq h2
+      -- p is in the grid; were it before q it would be in `init` (not cancelling); so it is q
+      obtain ⟨rest, hrest⟩ := cut_prefix (cancelAt cancel) (grid sp)
+      rw [h1] at hrest
+      have hinc := grid_increasing sp
+      rw [hrest] at hinc hp
+      rcases List.mem_append.mp hp with hp1 | hp2
+      · rcases List.mem_append.mp hp1 with hp0 | hp0
+        · have := h3 p hp0; rw [hfp] at this; cases this
+        · simp at hp0; exact hp0.symm
+      · have := (List.pairwise_append.mp hinc).2.2 q (by simp) p hp2
+        omega
+    subst hqp
+    rw [hrun, h1]
+    have hcr := (runPositions_spec c P sp h init (St.init pop0) rfl).1
+    have hprog := (runStep_safe c P sp h _ hcr q.1 q.2).2.2.2.2
+    obtain ⟨pr, hpr, hlt⟩ := progress_lt1_before_last c hc sp q.1 q.2 hp hne
+    have : runPositions c P sp (St.init pop0) (init ++ [q]) =
+        runStep c P sp (runPositions c P sp (St.init pop0) init) q.1 q.2 := by
+      simp [runPositions, List.foldl_append]
+    simp only [this, skipped]
+    rw [hpr] at hprog
+    simp only [Option.some.injEq] at hprog
+    rw [← hprog]; exact hlt
+
+/-! ### wave 2 (2): the float time label `round + step*dt` and the rational grid
+
+A binary floating-point format with `prec` significand bits and least exponent `emin` (IEEE double: 53, −1074;
+the upper exponent bound is irrelevant for |values| < 2^53): `Rep` are its numbers.  Any rounding that returns
+representable arguments unchanged (every IEEE rounding mode does) computes `float(r) + float(s) * dt` without
+error when `1/dt = 2^k`: the float label *is* the rational grid point `r + s/n`. -/
+
+def Rep (prec : Nat) (emin : Int) (x : ℚ) : Prop :=
+  ∃ (m e : Int), m.natAbs < 2 ^ prec ∧ emin ≤ e ∧ x = (m : ℚ) * (2 : ℚ) ^ e
+
+structure Rounding (prec : Nat) (emin : Int) where
+  rnd : ℚ → ℚ
+  exact : ∀ x, Rep prec emin x → rnd x = x
+
+/-- Python's `sim_round + step * model.dt` on such a format. -/
+def floatLabel {prec : Nat} {emin : Int} (R : Rounding prec emin) (r : Int) (s : Nat) (dt : ℚ) : ℚ :=
+  R.rnd (R.rnd (r : ℚ) + R.rnd (R.rnd (s : ℚ) * dt))
+
+theorem label_exact_pow2 {prec : Nat} {emin : Int} (R : Rounding prec emin) (k : Nat) (r : Int) (s : Nat)
+    (hemin : emin ≤ -(k : Int)) (hr : r.natAbs < 2 ^ prec) (hs : s < 2 ^ prec)
+    (hsum : (r * 2 ^ k + s).natAbs < 2 ^ prec) :
+    floatLabel R r s (1 / 2 ^ k) = (r : ℚ) + (s : ℚ) / 2 ^ k := by
+  have h2 : (2 : ℚ) ^ (-(k : Int)) = 1 / 2 ^ k := by
+    rw [zpow_neg, zpow_natCast]; simp
+  have e0 : emin ≤ 0 := by omega
+  have r1 : R.rnd (r : ℚ) = r := R.exact _ ⟨r, 0, hr, e0, by simp⟩
+  have r2 : R.rnd (s : ℚ) = s := R.exact _ ⟨s, 0, by simpa using hs, e0, by simp⟩
+  have r3 : R.rnd ((s : ℚ) * (1 / 2 ^ k)) = (s : ℚ) * (1 / 2 ^ k) :=
+    R.exact _ ⟨s, -(k : Int), by simpa using hs, hemin, by rw [h2]; simp⟩
+  have r4 : R.rnd ((r : ℚ) + (s : ℚ) * (1 / 2 ^ k)) = (r : ℚ) + (s : ℚ) * (1 / 2 ^ k) := by
+    apply R.exact
+    refine ⟨r * 2 ^ k + s, -(k : Int), hsum, hemin, ?_⟩
+    rw [h2]
+    have hpos : (2 : ℚ) ^ k ≠ 0 := by positivity
+    push_cast
+    field_simp
+  unfold floatLabel
+  rw [r1, r2, r3, r4]
+  ring
+
+/-- hence the float labels of a run with `n = 2^k` steps per round are the grid points `timeNum / n`, and are
+strictly increasing along the grid. -/
+theorem label_is_grid_point {prec : Nat} {emin : Int} (R : Rounding prec emin) (k : Nat) (r : Int) (s : Nat)
+    (hemin : emin ≤ -(k : Int)) (hr : r.natAbs < 2 ^ prec) (hs : s < 2 ^ prec)
+    (hsum : (r * 2 ^ k + s).natAbs < 2 ^ prec) :
+    floatLabel R r s (1 / 2 ^ k) = (timeNum (2 ^ k) (r, s) : ℚ) / 2 ^ k := by
+  rw [label_exact_pow2 R k r s hemin hr hs hsum]
+  have hpos : (2 : ℚ) ^ k ≠ 0 := by positivity
+  simp only [timeNum]
+  push_cast
+  field_simp
+
+/-- IEEE doubles (Lean `Float`, evaluated by the kernel), witnesses only.  The code accepts every dt with
+`round(1/dt) ≥ 1`, also dt = 0.1: there the literal label `0 + 3*0.1` is **not** the double nearest to the
+grid point 3/10 (the property takes the label literally, so this is no violation — it is why the theorem above
+needs `1/dt` to be a power of two); for dt = 0.25 the label is the grid point. -/
+theorem float_label_tenth_off_grid : ((Float.ofInt 0 + Float.ofNat 3 * (0.1 : Float)) == (0.3 : Float)) = false := by
+  decide +kernel
+
+theorem float_label_quarter_on_grid : ((Float.ofInt 1 + Float.ofNat 3 * (0.25 : Float)) == (1.75 : Float)) = true := by
+  decide +kernel
+
+/-- labels with dt = 0.1 still increase strictly over a round (kernel-evaluated on all ten steps). -/
+theorem float_label_tenth_increasing :
+    ((List.range 9).all (fun s => Float.ofInt 2 + Float.ofNat s * (0.1 : Float) < Float.ofInt 2 + Float.ofNat (s + 1) * (0.1 : Float))
+      && (Float.ofInt 2 + Float.ofNat 9 * (0.1 : Float) < Float.ofInt 3 + Float.ofNat 0 * (0.1 : Float))) = true := by
+  decide +kernel
+
 /-! ### the property -/
 
 /-- whole-run clauses. -/
@@ -559,6 +970,21 @@ theorem stepClauses_of_safe (c : Cfg) (P : Prog) (sp : Spec) (h : Safe c sp) : S
   obtain ⟨h1, h2, h3, _, _⟩ := runStep_safe c P sp h st hc r s
   exact ⟨h1, h2, h3⟩
 
+/-- wave 2: termination is proved, not assumed, under an explicit creation bound. -/
+structure TermClauses (c : Cfg) (P : Prog) (sp : Spec) (pop0 : Pop) : Prop where
+  step : ∀ pop r s N cb, PopOK pop → CreateBound P r s N cb →
+    (stepOut P sp pop r s).entry.agents.length + cb * N ≤ sp.fuel →
+    (stepOut P sp pop r s).stuck = false ∧
+    ∃ extra, (stepOut P sp pop r s).acted = (stepOut P sp pop r s).entry.agents ++ extra ∧
+      (∀ x ∈ extra, (stepOut P sp pop r s).entry.next ≤ x) ∧ (stepOut P sp pop r s).acted.Pairwise (· < ·)
+  run : ∀ N cb, (∀ r s, CreateBound P r s N cb) → FuelOK P sp N cb pop0 (grid sp) → (run c P sp pop0).stuck = false
+
+theorem termClauses (c : Cfg) (P : Prog) (sp : Spec) (pop0 : Pop) (h : Safe c sp) (hp : PopOK pop0) :
+    TermClauses c P sp pop0 :=
+  ⟨fun pop r s N cb hpop hb hf => ⟨stepOut_terminates P sp pop r s N cb hpop hb hf,
+      stepShape_bounded P sp pop r s N cb hpop hb hf⟩,
+   fun N cb hb hf => run_terminates c P sp pop0 h hp N cb hb hf⟩
+
 /-- The full property for configuration `c`: for every program, all integer start/stop, every
 `n = 1/dt ≥ 1`, both settings of the collection switch, every well-formed initial population. -/
 def C12_full (c : Cfg) : Prop :=
@@ -566,12 +992,14 @@ def C12_full (c : Cfg) : Prop :=
     RunClauses c P sp pop0 ∧ StepClauses c P sp ∧
     (∀ pop r s, PopOK pop → StepShape P sp pop r s) ∧
     (∀ r s, (r, s) ∈ grid sp ↔ sp.start ≤ r ∧ r ≤ sp.stop ∧ s < sp.n) ∧
-    (grid sp).Pairwise (fun p q => timeNum sp.n p < timeNum sp.n q)
+    (grid sp).Pairwise (fun p q => timeNum sp.n p < timeNum sp.n q) ∧
+    TermClauses c P sp pop0 ∧ (∀ cancel, CancelClauses c P sp pop0 cancel)
 
 theorem C12_full_of_good (c : Cfg) (h : c.progressBySpan = true) : C12_full c := by
   intro P sp pop0 hn hp
   exact ⟨runClauses_of_safe c P sp pop0 (Or.inl h) hn hp, stepClauses_of_safe c P sp (Or.inl h),
-    fun pop r s hpop => stepShape P sp pop r s hpop, grid_mem sp, grid_increasing sp⟩
+    fun pop r s hpop => stepShape P sp pop r s hpop, grid_mem sp, grid_increasing sp,
+    termClauses c P sp pop0 (Or.inl h) hp, fun cancel => cancelClauses c P sp pop0 cancel (Or.inl h)⟩
 
 /-- What holds whatever the progress formula is: everything, for positive stop times. -/
 theorem C12_partial (c : Cfg) (P : Prog) (sp : Spec) (pop0 : Pop) (hn : 0 < sp.n) (hp : PopOK pop0)
@@ -579,9 +1007,11 @@ theorem C12_partial (c : Cfg) (P : Prog) (sp : Spec) (pop0 : Pop) (hn : 0 < sp.n
     RunClauses c P sp pop0 ∧ StepClauses c P sp ∧
     (∀ pop r s, PopOK pop → StepShape P sp pop r s) ∧
     (∀ r s, (r, s) ∈ grid sp ↔ sp.start ≤ r ∧ r ≤ sp.stop ∧ s < sp.n) ∧
-    (grid sp).Pairwise (fun p q => timeNum sp.n p < timeNum sp.n q) :=
+    (grid sp).Pairwise (fun p q => timeNum sp.n p < timeNum sp.n q) ∧
+    TermClauses c P sp pop0 ∧ (∀ cancel, CancelClauses c P sp pop0 cancel) :=
   ⟨runClauses_of_safe c P sp pop0 (Or.inr hstop) hn hp, stepClauses_of_safe c P sp (Or.inr hstop),
-    fun pop r s hpop => stepShape P sp pop r s hpop, grid_mem sp, grid_increasing sp⟩
+    fun pop r s hpop => stepShape P sp pop r s hpop, grid_mem sp, grid_increasing sp,
+    termClauses c P sp pop0 (Or.inr hstop) hp, fun cancel => cancelClauses c P sp pop0 cancel (Or.inr hstop)⟩
 
 def quietProg : Prog :=
   { beginRound := fun _ _ => [], handle := fun _ _ _ => [], act := fun _ _ _ => [], endRound := fun _ _ => [] }
@@ -625,6 +1055,36 @@ example : (run ⟨true⟩ midProg { start := 1, stop := 2, n := 2, collectOn := 
     positionsOf isCollect (run ⟨true⟩ midProg { start := 1, stop := 2, n := 2, collectOn := false, fuel := 9 }
       { agents := [0, 1], next := 2 }).log = [(2, 1)] := by decide
 
+/-- nested creation within the bound: agent 0 creates agent 2, agent 2 (created in this step) creates agent 3,
+agent 3 (id ≥ N = 3) creates nobody; `c = 1`.  The step ends with fuel `L + c·N = 2 + 3`. -/
+def nestedProg : Prog :=
+  { quietProg with act := fun _ _ a => if a = 0 ∨ a = 2 then [.create] else [] }
+
+example : CreateBound nestedProg 1 0 3 1 :=
+  ⟨fun a => by
+      by_cases h : a = 0 ∨ a = 2
+      · simp [nestedProg, quietProg, h, creates]
+      · simp [nestedProg, quietProg, h, creates],
+   fun a ha => by
+      have h : ¬ (a = 0 ∨ a = 2) := by omega
+      simp [nestedProg, quietProg, h, creates]⟩
+
+example : (stepOut nestedProg { start := 1, stop := 1, n := 1, collectOn := true, fuel := 5 }
+    { agents := [0, 1], next := 2 } 1 0).acted = [0, 1, 2, 3] ∧
+    (stepOut nestedProg { start := 1, stop := 1, n := 1, collectOn := true, fuel := 5 }
+      { agents := [0, 1], next := 2 } 1 0).stuck = false := by decide
+
+/-- cancellation: `scheduler.running` cleared in step (1,1) of a 2×2 grid — steps (1,0), (1,1) run, nothing after,
+the flag stays false, progress 2/4 < 1 (the runner skips the scenario). -/
+example :
+    let r := runC ⟨true⟩ quietProg { start := 1, stop := 2, n := 2, collectOn := true, fuel := 9 }
+      (fun r s => r == 1 && s == 1) { agents := [0], next := 1 } true
+    positionsOf isBegin r.1.log = [(1, 0), (1, 1)] ∧ r.2 = false ∧ skipped r.1 = true ∧ r.1.progress = ⟨2, 4⟩ := by
+  decide
+
+/-- the rounding hypothesis is satisfiable (exact arithmetic is a rounding). -/
+example : Rounding 53 (-1074) := ⟨id, fun _ _ => rfl⟩
+
 #print axioms C12_full_of_good
 #print axioms C12_partial
 #print axioms C12_witness_zero
@@ -632,5 +1092,14 @@ example : (run ⟨true⟩ midProg { start := 1, stop := 2, n := 2, collectOn := 
 #print axioms stepShape
 #print axioms grid_increasing
 #print axioms foldl_loopAct_frozen
+#print axioms agentLoop_terminates
+#print axioms run_terminates
+#print axioms agentLoop_fuel_irrelevant
+#print axioms cancelClauses
+#print axioms label_exact_pow2
+#print axioms label_is_grid_point
+#print axioms float_label_tenth_off_grid
+#print axioms float_label_quarter_on_grid
+#print axioms float_label_tenth_increasing
 
 end Bptk.C12
